@@ -44,6 +44,7 @@ class ReactiveDevice:
     self.lids = {}
     self.later = []         # messages released when the first host WRTE arrives
     self.ack_writes = True
+    self.before_ack = []    # data the service sends when it receives a host WRTE, ahead of that WRTE's OKAY
 
   def write(self, data, timeout_ms=None):
     self.sched.yield_('usb.write')
@@ -64,6 +65,9 @@ class ReactiveDevice:
       for d in self.script.get(self.nopen, []):      # data the service sends right behind its OKAY
         self.rx.extend(self.uf.frame('WRTE', rid, a0, d))
     elif cmd == 'WRTE' and self.ack_writes:
+      for d in self.before_ack:
+        self.rx.extend(self.uf.frame('WRTE', a1, a0, d))
+      self.before_ack = []
       self.rx.extend(self.uf.frame('OKAY', a1, a0))
 
   def push(self, n, data):
@@ -86,7 +90,9 @@ def scenario(name, tmo):
   """returns run_fn(policy) -> (sched, result dict)"""
   def run(policy):
     from vf import sched, usbfake
-    s = sched.Sched(policy=policy, max_steps=20000, early_expiry=0.02)   # the 10 ms queue poll may expire early
+    # (the 10 ms queue poll may expire early; scenario rwl: every statement of adb_protocol.py is a scheduling point)
+    s = sched.Sched(policy=policy, max_steps=60000, early_expiry=0.02,
+                    trace_files=('openhtf/plugs/usb/adb_protocol.py',) if name == 'rwl' else ())
     log = []
     box = dict(log=log)
 
@@ -121,6 +127,24 @@ def scenario(name, tmo):
         ths = [threading.Thread(target=reader, args=(st, 'R'), name='R'),
                threading.Thread(target=writer, args=(st, 'W', 'xyz'), name='W')]
         box['expect'] = {('R', 'read', 'abc'), ('W', 'write-ok')}
+      elif name == 'rwl':        # one stream: the reader consumes its buffer while the writer, waiting for its ack,
+        st = conn.open_stream('shell:x', timeout_ms=5000)   # routes the next device message into that buffer
+        dev.push(1, 'AB')
+        dev.before_ack = ['CD']
+
+        def reader_all(st_, tag):
+          got = ''
+          try:
+            for _ in range(6):
+              if len(got) >= 4:
+                break
+              got += st_.read(0, timeout_ms=tmo)
+            log.append((tag, 'read', got))
+          except Exception as e:  # pylint: disable=broad-except
+            log.append((tag, 'read-exc', type(e).__name__))
+        ths = [threading.Thread(target=reader_all, args=(st, 'R'), name='R'),
+               threading.Thread(target=writer, args=(st, 'W', 'xyz'), name='W')]
+        box['expect'] = {('R', 'read', 'ABCD'), ('W', 'write-ok')}
       elif name == 'rr2':        # two streams, one reader each, data arrives for the other stream first
         s1 = conn.open_stream('shell:1', timeout_ms=5000)
         s2 = conn.open_stream('shell:2', timeout_ms=5000)
@@ -234,7 +258,7 @@ def judge(name, tmo, box):
   if dev is not None:
     wr = sum(1 for c in dev.host if c[0] == 'WRTE')
     acks = collections.Counter((c[1], c[2]) for c in dev.host if c[0] == 'OKAY')
-    sent = {'rw1': {1: 1}, 'rr2': {1: 1, 2: 1}, 'rrw': {1: 2}, 'rr3': {1: 1, 2: 2}, 'rwt': {1: 1}, 'ro': {1: 1, 2: 1}}[name]
+    sent = {'rw1': {1: 1}, 'rwl': {1: 2}, 'rr2': {1: 1, 2: 1}, 'rrw': {1: 2}, 'rr3': {1: 1, 2: 2}, 'rwt': {1: 1}, 'ro': {1: 1, 2: 1}}[name]
     for n, cnt in sent.items():
       lid, rid = dev.lids[n]
       if acks.get((lid, rid), 0) != cnt:
@@ -324,6 +348,7 @@ def dfs(chk, pool, bound, maxruns):
   for name in ('rw1', 'rr2', 'rrw', 'rr3', 'rwt', 'ro'):
     for tmo in (None, 2000):
       jobs.append((name, tmo, bound, (), maxruns))
+  jobs.append(('rwl', None, 1, (), maxruns))
   outs = pool.map(explore_scenario, jobs)
   total = 0
   for j, o in zip(jobs, outs):
